@@ -311,6 +311,11 @@ def py_term(node, resolve=None, callname=None, depth=0):
             name = dotted_name(node.func) or ast.unparse(node.func)
         if name in ("float", "int") and len(node.args) == 1 and name == "float":
             return py_term(node.args[0], resolve, callname, depth + 1)
+        # value-preserving numeric conversions: np.asarray(x), np.array(x[, dtype=float]), np.float64(x)
+        if name.split(".")[-1] in ("asarray", "asanyarray", "array", "float64", "asfarray") and name.split(".")[0] in ("np", "numpy") \
+                and len(node.args) == 1 and all(k.arg == "dtype" and ast.unparse(k.value).replace('"', "'") in ("float", "np.float64", "'float64'", "'float'", "numpy.float64")
+                                                for k in node.keywords):
+            return py_term(node.args[0], resolve, callname, depth + 1)
         args = [py_term(a, resolve, callname, depth + 1) for a in node.args]
         for kw in node.keywords:
             args.append(
